@@ -6,8 +6,9 @@ import hv
 from hv import Case
 
 SPEC = {
-    "lean_modules": ["Honeycomb.Props.C01"],
-    "required_theorems": ["C01_history_preserves_WF", "C01_step_preserves_WF", "C01_failed_call_changes_nothing", "C01_unused_is_nobodys_image"],
+    "lean_modules": ["Honeycomb.Props.C01", "Honeycomb.Props.C01b"],
+    "required_theorems": ["C01_history_preserves_WF", "C01_step_preserves_WF", "C01_failed_call_changes_nothing", "C01_unused_is_nobodys_image",
+                          "C01_any_outcome_preserves_WF", "C01_swallowed_abort_preserves_WF"],
     "trusted_base": [
         "Lean 4.33 kernel; axioms propext, Classical.choice, Quot.sound only",
         "hand-written model Honeycomb/Model/{Stm,Map,Ops,Ops2}.lean tied to /repo by the hcmodel/hcimpl correspondence run",
@@ -143,9 +144,33 @@ def malformed(count, rng, mask=7):
     return cases
 
 
+def swallow_blocks(count, rng, mask=7):
+    """`txi … endtx`: a user transaction that handles the refusals of its calls itself — the `Abort` of a refused
+    link/unlink/sew/unsew is swallowed and the transaction still commits (the property covers calls `whether they succeed
+    or fail`): a refused call must not have written anything that breaks well-formedness"""
+    cases = []
+    maps = {n: list(gens.wf_maps2(n, with_unused=False)) for n in (2, 3, 4)}
+    for k in range(count):
+        n = rng.choice((2, 3, 3, 4, 4))
+        b0, b1, b2, u = rng.choice(maps[n])
+        in_use = list(range(1, n + 1))
+        lines = [gens.load_line(2, n, mask, [b0, b1, b2], u)] + gens.value_lines(rng, n, mask, pv=0.9, pa=0.5)
+        lines.append("txi")
+        for _ in range(rng.randint(2, 5)):
+            op = gens.random_op2(rng, n, in_use, force_p=0.0)
+            while op.split()[0] in ("rm", "ins", "add"):
+                op = gens.random_op2(rng, n, in_use, force_p=0.0)
+            lines.append(op)
+        lines += ["endtx", "snap", "wf"]
+        cases.append(Case(f"txi{k}", lines, oracle="wf", meta={"sig": "swallowed-aborts"}))
+    return cases
+
+
 def run(tier, seed):
     rng = random.Random(seed)
     parts = []
+    parts.append(("transactions that swallow the refusals of their calls and commit (txi)",
+                  hv.campaign(swallow_blocks(6000 if tier == "quick" else 80000, rng), oracle_wf)))
     if tier == "quick":
         ex = exhaustive(3, rng)
         ex4 = exhaustive_only(4, rng, 0.04)
